@@ -72,6 +72,8 @@ class Check(HCheck):
         # very long stems (tails of 9, 29 and 54 blocks): reading in runs, caps on tail length
         vl = [A + L.long_stem(n, f) for n, f in ((700, b"a"), (2200, b"a"), (2200, b"b"), (4000, b"c"))]
         sp.append(Space(Cfg("never"), [al.page(u, i % 2 == 0) for i, u in enumerate(vl)] + [al.page(vl[0] + b"p:k|"), al.create(vl[1]), al.REOPEN], 4 if thorough else 3, name="long/very-long"))
+        allb = [A + b"p:" + bytes([b]) + b"|" for b in range(256) if b != 0x7C] + [A + L.long_stem(75, b"a")[:-2] + bytes([b]) + b"|" for b in range(256) if b != 0x7C]
+        sp.append(Space(Cfg("never"), [al.page(u) for u in allb], 1, roots=[al.R0, (al.page(A + b"p:\x40|"), al.page(A + L.long_stem(75, b"a")))], name="bytes/all-values"))
         shapes = al.shape_lrus(3)
         prep = [al.R0, (al.page(A + L.long_stem(75, b"a")),), (al.page(A + L.long_stem(149, b"a") + b"p:k|"),)]
         sp.append(Space(Cfg("never"), [al.page(u, i % 2 == 0) for i, u in enumerate(shapes)], 1, roots=prep, name="shapes/one-insertion"))
